@@ -114,7 +114,7 @@ fn externs_c15(r: &mut Rng, two_cconvs: bool) -> Vec<ExternSymbol> {
 fn knobs(two_cconvs: bool) -> Knobs {
     Knobs {
         subs: (1, 3), blocks: (2, 6), w_branch: 14, w_cbranch: 30, w_cbranch_ret: 6, w_return: 12, w_ext_call: 40, w_int_call: 10,
-        w_callind: 5, w_branchind: 3, w_nojump: 1, w_callother: 1, w_single_cbranch: 1, p_no_ret: 8, p_empty_sub: 3, p_forward: 60,
+        w_callind: 5, w_branchind: 3, w_nojump: 1, w_callother: 1, w_single_cbranch: 1, p_no_ret: 8, p_empty_sub: 3, p_forward: 60, p_chain: 0,
         sub_cconvs: if two_cconvs { vec!["".to_string(), "__fastalt".to_string(), "__stdcall".to_string()] } else { vec!["".to_string()] },
     }
 }
